@@ -941,6 +941,58 @@ func (fx *Fx) specBuiltin(st *State, call *ast.CallExpr) ([]Val, bool) {
 			panic(unsupported("zeroelem of untyped sequence"))
 		}
 		return []Val{{T: et, S: fx.d.sortOf(et), X: fx.d.zeroOf(et)}}, true
+	case "indexbyte":
+		a := fx.eval(st, call.Args[0], true)
+		c := fx.eval(st, call.Args[1], true)
+		if fx.inQuant > 0 {
+			f := fx.d.declareFun("indexbyte", []string{SStr, SInt}, SInt)
+			return intV(app(f, a.X, c.X)), true
+		}
+		return []Val{fx.indexByte(st, a, c)}, true
+	case "visited", "indom0":
+		// visited(ord, key): key was already produced by the map-range loop with that ordinal; indom0: in the map at loop entry
+		ord := fx.eval(st, call.Args[0], true).X
+		k := fx.eval(st, call.Args[1], true)
+		g, ok := st.ghost[map[string]string{"visited": "visited", "indom0": "dom0_"}[id.Name]+ord]
+		if !ok {
+			panic(unsupported("no map-range loop " + ord + " in scope for " + id.Name))
+		}
+		return boolV(app("select", g.X, k.X)), true
+	case "has":
+		// has(m, k): key k is in map m
+		mv := fx.eval(st, call.Args[0], true)
+		k := fx.eval(st, call.Args[1], true)
+		mt, ok := mv.T.Underlying().(*types.Map)
+		if !ok {
+			panic(unsupported("has() on a non-map"))
+		}
+		return boolV(fx.mapHas(st, mv, mt, k)), true
+	case "hastype":
+		a := fx.eval(st, call.Args[0], true)
+		name := *fx.eval(st, call.Args[1], true).Lit
+		var t types.Type
+		switch name {
+		case "string":
+			t = types.Typ[types.String]
+		case "[]byte":
+			t = types.NewSlice(types.Typ[types.Byte])
+		default:
+			panic(unsupported("hastype " + name))
+		}
+		return boolV(and(not(app("=", a.X, "nil")), app("=", app("dyntype", a.X), fmt.Sprint(fx.v.typeID(t))))), true
+	case "hasdyn":
+		// hasdyn(x, "TypeName"): the dynamic type of interface value x is the package's named type
+		a := fx.eval(st, call.Args[0], true)
+		name := *fx.eval(st, call.Args[1], true).Lit
+		o := fx.pkg.types.Scope().Lookup(name)
+		if o == nil {
+			panic(unsupported("hasdyn: no type " + name))
+		}
+		return boolV(and(not(app("=", a.X, "nil")), app("=", app("dyntype", a.X), fmt.Sprint(fx.v.typeID(o.Type()))))), true
+	case "asstr":
+		a := fx.eval(st, call.Args[0], true)
+		f := fx.d.declareFun("unbox_"+sanitize(SStr), []string{SRef}, SStr)
+		return []Val{{T: types.Typ[types.String], S: SStr, X: app(f, a.X)}}, true
 	case "trunc":
 		a := fx.eval(st, call.Args[0], true)
 		return intV(ite(app(">=", a.X, "0.0"), app("to_int", a.X), app("-", app("to_int", app("-", a.X))))), true
